@@ -27,11 +27,36 @@ func xb(s string) []byte {
 	key := [2]int{len(constArgs), len(b)}
 	out, ok := xbPool[key]
 	if !ok {
-		out = make([]byte, len(b))
+		out = make([]byte, len(b)+8)
 		xbPool[key] = out
 	}
 	copy(out, b)
-	return constArg(out[:len(out):len(out)])
+	for i := len(b); i < len(out); i++ {
+		out[i] = 0xc3 ^ byte(i)
+	}
+	// every other op the argument has no spare capacity (an over-long slice expression traps); otherwise it is a window into a
+	// larger buffer of the caller (SQN‖AMF records, an AUTS): what lies behind it belongs to the caller and is watched as well
+	xbSeq++
+	if xbSlack && xbSeq%2 == 0 {
+		constArgs = append(constArgs, constA{out, hx(out)})
+		return out[:len(b)]
+	}
+	return constArg(out[:len(b):len(b)])
+}
+
+var xbSeq int
+
+// xbSlack: the op has checked that every input-only argument has the length its position calls for (the model reads a slice
+// expression that runs past the LENGTH as a trap, which Go does only when it runs past the capacity)
+var xbSlack bool
+
+func nominal(a []string, lens ...int) {
+	xbSlack = true
+	for i, l := range lens {
+		if i >= len(a) || (a[i] == "-" && l != 0) || (a[i] != "-" && len(a[i]) != 2*l) {
+			xbSlack = false
+		}
+	}
 }
 
 var xbPool = map[[2]int][]byte{}
@@ -49,6 +74,8 @@ func buf(want string, n int) []byte {
 func init() {
 	register("milenage", milenageDomain)
 	registerOp("mil_f1", func(a []string) string {
+		nominal(a, 16, 16, 16, 6, 2)
+		defer func() { xbSlack = false }()
 		macA, macS := make([]byte, 8), make([]byte, 8)
 		if err := milenage.F1(xb(a[0]), xb(a[1]), xb(a[2]), xb(a[3]), xb(a[4]), macA, macS); err != nil {
 			return "err"
@@ -66,18 +93,24 @@ func init() {
 		return okHex(milenage.GenerateOPC(xb(a[0]), xb(a[1])))
 	})
 	registerOp("mil_gen", func(a []string) string {
+		nominal(a, 16, 2, 16, 6, 16)
+		defer func() { xbSlack = false }()
 		autn, ik, ck, ak, res := make([]byte, 16), make([]byte, 16), make([]byte, 16), make([]byte, 6), make([]byte, 8)
 		rl := uint(aU64(a[5]))
 		milenage.MilenageGenerate(xb(a[0]), xb(a[1]), xb(a[2]), xb(a[3]), xb(a[4]), autn, ik, ck, ak, res, &rl)
 		return "ok " + u(uint64(rl)) + " " + hx(autn) + " " + hx(ik) + " " + hx(ck) + " " + hx(ak) + " " + hx(res)
 	})
 	registerOp("mil_check", func(a []string) string {
+		nominal(a, 16, 16, 6, 16, 16)
+		defer func() { xbSlack = false }()
 		ik, ck, res, auts := make([]byte, 16), make([]byte, 16), make([]byte, 8), make([]byte, 14)
 		var rl uint
 		ret := milenage.Milenage_check(xb(a[0]), xb(a[1]), xb(a[2]), xb(a[3]), xb(a[4]), ik, ck, res, &rl, auts)
 		return "ok " + strconv.Itoa(ret) + " " + u(uint64(rl)) + " " + hx(res) + " " + hx(ck) + " " + hx(ik) + " " + hx(auts)
 	})
 	registerOp("mil_auts", func(a []string) string {
+		nominal(a, 16, 16, 16, 14)
+		defer func() { xbSlack = false }()
 		sqn := make([]byte, 6)
 		ret := milenage.Milenage_auts(xb(a[0]), xb(a[1]), xb(a[2]), xb(a[3]), sqn)
 		return "ok " + strconv.Itoa(ret) + " " + hx(sqn)
